@@ -135,4 +135,6 @@ def _run(op, a):
             ad = CBech32BitcoinAddress.from_bytes(0, data)
         bitcoin.SelectParams(CHAINS[cb])
         return [catch(lambda: untxt(str(ad))), catch(lambda: bytes(ad.to_scriptPubKey()))]
+    if op == 6:
+        return with_chain(a[0], lambda: triple(CBitcoinAddress(a[1])))     # a[1]: bytes or int, not a str
     raise ValueError('op')
